@@ -144,6 +144,22 @@ pub fn run(ctx: &Ctx) -> i32 {
         st.count("ascii_one_char_sets_exhaustive");
         check_case(ctx, st, &tcs, s0);
     });
+    // every set of <= 3 one-character strings over the code points around the UTF-8/UTF-16/plane
+    // boundaries and the surrogate gap
+    let bcp: Vec<String> = gen::boundary_code_points().into_iter().map(|c| c.to_string()).collect();
+    let mut bsets: Vec<Vec<String>> = vec![];
+    for a in 0..bcp.len() {
+        for b in a + 1..bcp.len() {
+            bsets.push(vec![bcp[a].clone(), bcp[b].clone()]);
+            for c in b + 1..bcp.len() {
+                bsets.push(vec![bcp[a].clone(), bcp[b].clone(), bcp[c].clone()]);
+            }
+        }
+    }
+    par_for(&ctx.run, bsets.len(), |i, st| {
+        st.count("boundary_code_point_sets_exhaustive");
+        check_case(ctx, st, &bsets[i], s0);
+    });
     // contiguous code point runs (character class ranges a-c) incl. around '-', '^', ']' and '\\'
     let runs: Vec<(u32, u32)> = vec![(0x28, 0x30), (0x58, 0x62), (0x7a, 0x82), (0x2d, 0x2f), (0x5b, 0x5e), (0xfffd, 0x10002), (0x10fffd, 0x10ffff), (0x1b, 0x22)];
     par_for(&ctx.run, runs.len() * 8, |i, st| {
